@@ -536,6 +536,7 @@ func (p *Pkg) severityDistanceByTabulation(fd *ast.FuncDecl, sevVar *types.Var) 
 			for j, vj := range row.T {
 				ce := newCEnv(p, nil)
 				ce.loops = true
+				ce.ratArith = true // positions are small integers: their float difference is exact
 				v, err := ce.callFunc(fd, []Val{vInt(int64(mi)), vi, vj}, fd)
 				if err != nil {
 					if _, isPanic := err.(*panicked); isPanic {
